@@ -143,6 +143,15 @@ register('C11', 'p_c11', 'c11',
          'must agree byte for byte, and the TIMESTAMP written must be the start of the scan.',
          ORACLE + ['kernel: st_mtime is what os.utime set (whole seconds are used)', 'the controlled clock replaces datetime.datetime.utcnow in gemato.cli only'])
 
+register('C14', 'p_c14', 'c14',
+         'random consistent trees with sub-Manifests (hostile names included), 0-1 mutations; top-level Manifest originally {unsigned, signed, signed with a bad signature} x sign option '
+         '{unset, on, off} x key id {default, explicit, one without usable secret key} x verification on/off x sort/compression options x forced/unforced save; each case runs twice '
+         '(as given, and with signing off) through /repo and the model with a deterministic stand-in for gpg (same function on both sides); then with real gpg 2.2: homes with and without '
+         'the secret key, explicit/default key, originally signed or not; non-trivial = distinct pair / run',
+         'Theorems in Properties/C14.v (sign decision, sub-Manifests never reach the signer, failure propagates, stored bytes = signer output over the dump); on the implementation: signed '
+         'iff required, the cleartext equals the unsigned twin, sub-Manifests carry no signature, signing failure raised; with real gpg the result verifies with the signing key.',
+         ORACLE + ['GnuPG: --clearsign output verifies with the signing key and authenticates the text given (exercised with gpg 2.2 on every run)'])
+
 # ---- MANIFEST metadata per claimed property ------------------------------------------------
 NOT_APPLICABLE = {}
 META = {
@@ -251,6 +260,12 @@ META = {
               'update would leave unchanged yields the full result (C11_unchanged_is_full); the TIMESTAMP is converted as UTC from its six fields only. PARTIAL: the lift to whole histories, the '
               'time-zone independence of the real CLI and "TIMESTAMP = start of the scan" are decided by replayed histories on two replicas and by model runs from the same pre-states.',
    level_note='About Model/Verify.v update_entry_for_path and Py/PyTime.v utc_epoch; the CLI glue (cli.py:390-417) is modelled by the update_inc / touch_timestamp operations of Exec/Tree.v.'),
+ 'C14': dict(engine='coq+tree+pgp', design_ref='DESIGN.md section 5 C14',
+   technique='Coq theorems about save_manifest with an arbitrary signer + differential runs with a deterministic stand-in signer + real gpg runs',
+   level_text='Proved in Coq for every signer, loader state and Manifest: the signer is consulted only for the top-level Manifest and only if the sign option is on or (unset) the Manifest was loaded with a '
+              'valid signature (C14_decision, C14_sub_manifest_never_signed, C14_plain_when_off); a signer failure is the result of the save (C14_signing_failure_is_error); on success the bytes stored are '
+              'the signer\'s output for exactly the dump of the entries written (C14_signed_content). That this output verifies with the signing key is GnuPG behaviour, exercised with real gpg.',
+   level_note='About Model/Update.v save_manifest; the signed flag of a loaded Manifest is covered by C04/C05; the truncation of the file before a failing signer runs is visible in the model (write_file first).'),
  'C09': dict(engine='coq+text', design_ref='DESIGN.md section 5 C09',
    technique='Coq theorems (totality of the parser result type by induction over lines; per-class rejection lemmas) + differential runs',
    level_text='Proved in Coq for every text: load returns entries, ManifestSyntaxError or ManifestUnsignedData and nothing else; accepted entries '
